@@ -161,6 +161,15 @@ pub fn render_posix(rng: &mut Rng, tz: &PosixTz) -> String {
 }
 
 fn gen_offset(rng: &mut Rng) -> i32 {
+    if rng.chance(1, 25) {
+        // RFC 8536 allows -25 h .. +26 h for local time types
+        return rng.range(-89_999, 93_599) as i32;
+    }
+    gen_offset_posix(rng)
+}
+
+/// Offsets a POSIX-TZ string can express together with a daylight offset (|hours| <= 24).
+fn gen_offset_posix(rng: &mut Rng) -> i32 {
     match rng.below(6) {
         0 => rng.range(-15, 15) as i32 * 3600,
         1 => rng.range(-15 * 4, 15 * 4) as i32 * 900,
@@ -218,7 +227,7 @@ fn gen_rule_time(rng: &mut Rng, v3: bool) -> i32 {
 
 /// A POSIX-TZ rule of IANA shape that satisfies the premise.
 pub fn gen_posix(rng: &mut Rng, v3: bool) -> PosixTz {
-    let std_off = gen_offset(rng);
+    let std_off = gen_offset_posix(rng);
     if rng.chance(1, 3) {
         return PosixTz { std_off, dst: None };
     }
@@ -291,12 +300,13 @@ pub fn synth(rng: &mut Rng) -> Synth {
         }
         times = set.into_iter().collect();
     }
-    let n_types = rng.range(1, 8) as usize;
+    // one file in thirty has a large type table (type indices above 127 included)
+    let n_types = if rng.chance(1, 30) { rng.range(100, 254) as usize } else { rng.range(1, 8) as usize };
     let mut types: Vec<(i32, bool, u8)> = (0..n_types).map(|_| (gen_offset(rng), rng.chance(1, 3), 0u8)).collect();
     let footer_kind = if version == 1 { 0 } else { rng.weighted(&[0, 1, 3, 6]) };
     // 1 empty, 2 fixed, 3 rule
     let posix: Option<PosixTz> = match footer_kind {
-        2 => Some(PosixTz { std_off: gen_offset(rng), dst: None }),
+        2 => Some(PosixTz { std_off: gen_offset_posix(rng), dst: None }),
         3 => Some(gen_posix(rng, version == 3)),
         _ => None,
     };
